@@ -1344,3 +1344,111 @@ func (c *Ctx) ruleWithdrawalsFirst(rule string) {
 		r.Bad(rule, fk, "merge of withdrawals and advertisements", c.P.Pos(so.Pos()), "soft reset out no longer merges withdrawals with the advertisements")
 	}
 }
+
+// ruleErrorsChecked: decode-side code looks at every error it is handed.
+func (c *Ctx) ruleErrorsChecked(rule string, pkgs []string, reviewed map[string]string, min int) {
+	r := c.R
+	r.Rule(rule, "error discipline on the decode side: in every function reachable from the parse entry points, each call to a module function that returns an error has that error result used (tested, returned, stored or passed on); an error that is thrown away lets a malformed element be accepted as if it had decoded", min)
+	errT := types.Universe.Lookup("error").Type()
+	for _, short := range pkgs {
+		var roots []*ssa.Function
+		for _, k := range decodeEntryPoints {
+			if strings.Contains(k, short+".") {
+				if fn := c.P.Func(k); fn != nil {
+					roots = append(roots, fn)
+				}
+			}
+		}
+		reach := c.reachableFrom(roots)
+		var fns []*ssa.Function
+		for fn := range reach {
+			if pk := ir.PkgOf(fn); pk != nil && strings.HasSuffix(pk.Path(), short) {
+				fns = append(fns, fn)
+			}
+		}
+		sortFuncs(fns)
+		for _, fn := range fns {
+			n := 0
+			for _, b := range fn.Blocks {
+				for _, in := range b.Instrs {
+					call, ok := in.(*ssa.Call)
+					if !ok {
+						continue
+					}
+					callee := call.Call.StaticCallee()
+					var sig *types.Signature
+					if callee != nil {
+						if !c.P.InModule(callee) {
+							continue
+						}
+						sig = callee.Signature
+					} else if call.Call.IsInvoke() {
+						sig = call.Call.Method.Type().(*types.Signature)
+						if pk := call.Call.Method.Pkg(); pk == nil || !strings.HasPrefix(pk.Path(), ir.ModPath) {
+							continue
+						}
+					} else {
+						continue
+					}
+					res := sig.Results()
+					ei := -1
+					for i := 0; i < res.Len(); i++ {
+						if types.Identical(res.At(i).Type(), errT) {
+							ei = i
+						}
+					}
+					if ei < 0 {
+						continue
+					}
+					n++
+					used := false
+					if res.Len() == 1 {
+						used = len(*call.Referrers()) > 0
+					} else {
+						for _, ref := range *call.Referrers() {
+							if ex, ok := ref.(*ssa.Extract); ok && ex.Index == ei && len(*ex.Referrers()) > 0 {
+								used = true
+							}
+						}
+					}
+					fk := ir.OuterKey(fn)
+					name := "interface method " + call.Call.String()
+					if callee != nil {
+						name = callee.Name()
+					} else {
+						name = call.Call.Method.Name()
+					}
+					cons := fmt.Sprintf("error of %s #%d", name, n)
+					key := fk + "|" + name
+					switch {
+					case used:
+						r.Ok(rule, fk, cons, c.P.InstrPos(call), "used")
+					case reviewed[key] != "":
+						r.Except(rule, fk, cons, c.P.InstrPos(call), reviewed[key])
+					default:
+						r.Bad(rule, fk, cons, c.P.InstrPos(call), "the error returned by "+name+" is discarded: a malformed element is treated as decoded")
+					}
+				}
+			}
+		}
+	}
+}
+
+func sortFuncs(fns []*ssa.Function) {
+	for i := 1; i < len(fns); i++ {
+		for j := i; j > 0 && fns[j].String() < fns[j-1].String(); j-- {
+			fns[j], fns[j-1] = fns[j-1], fns[j]
+		}
+	}
+}
+
+// errorsDiscardedReviewed: the discarded error results that were read and found harmless.
+var errorsDiscardedReviewed = map[string]string{
+	"(*pkg/packet/bgp.FlowSpecNLRI).decodeFromBytes|NewIPAddrPrefix":         "called with the constant, valid prefix 0.0.0.0/0 to obtain a placeholder",
+	"(*pkg/packet/bgp.PathAttributeAsPath).DecodeFromBytes|Serialize":       "builds the Data field of an error that is already being returned",
+	"(*pkg/packet/bgp.PathAttributeMpReachNLRI).DecodeFromBytes|Serialize":  "builds the Data field of an error that is already being returned",
+	"(*pkg/packet/bgp.PathAttributeMpUnreachNLRI).DecodeFromBytes|Serialize": "builds the Data field of an error that is already being returned",
+	"(*pkg/packet/bgp.SRPolicyNLRI).Len|Serialize":                           "Len() reports the size of what Serialize would emit; an error means size 0",
+	"(*pkg/zebra.lookupBody).decodeFromBytes|addressByteLength":               "the family is one of the two constants the function accepts",
+	"pkg/packet/bgp.GetRouteDistinguisher|NewRouteDistinguisherIPAddressAS":  "the address is built from exactly four octets and is therefore always IPv4",
+}
